@@ -26,7 +26,7 @@ def _describe(tier):
                 'empty result. non-trivial = absent keyword derived from a stored keyword.' % n,
         'bounds': 'N<=%d exhaustive over partitions; 3 stored keywords x 7 derivations + 5 others per database' % n,
         'assumptions': ['label/PRP collision of an absent keyword with a filler entry has probability <= |table| * 2^-64 per case'],
-        'must_be_nonzero': ['prefix', 'suffix', 'concat', 'plus-nul', 'lead-nul-stored', 'maxlen', 'other-db-same-key'],
+        'must_be_nonzero': ['prefix', 'suffix', 'concat', 'plus-nul', 'lead-nul-stored', 'maxlen', 'other-db-same-key', 'keyword-universes', 'universe-absent-keywords'],
     }
 
 
